@@ -438,7 +438,8 @@ impl OutputFormat for IcyDraw {
                                             crate::Role::Normal => {
                                                 let mut o = 0;
                                                 for y in layer.get_line_count()..layer.get_height() {
-                                                    if o >= bytes.len() {
+                                                    // a row without columns reads no data: don't count up to the declared height
+                                                    if o >= bytes.len() || layer.get_width() <= 0 {
                                                         // will be continued in a later chunk.
                                                         break;
                                                     }
@@ -608,7 +609,8 @@ impl OutputFormat for IcyDraw {
                                             return Err(anyhow::anyhow!("data length out ouf bounds {} data lenth: {}", length, bytes.len() - o));
                                         }
                                         for y in 0..height {
-                                            if o >= bytes.len() {
+                                            // a row without columns reads no data: don't count up to the declared height
+                                            if o >= bytes.len() || width <= 0 {
                                                 // will be continued in a later chunk.
                                                 break;
                                             }
